@@ -2,6 +2,7 @@ import J5V.Codec.ScalarProofs
 import J5V.Codec.RoundtripProofs
 import J5V.Codec.EncTreeProofs
 import J5V.Codec.ProgressProofs
+import J5V.Codec.AnyProofs
 import J5V.Generated.CodecFacts
 /-!
 # C01 — JSON codec round-trip: `decode (encode m) = m`
@@ -121,7 +122,40 @@ theorem C01_encode_succeeds_partial (c : Cfg) (hs : c.env.flat = true) (L : Orac
     ∃ bs, encodeBytes c.env c.O root (.msg m) = .ok bs :=
   encode_ok c hs L root m hok
 
+/-- **`Any` (j5, tree level, `_partial`)**: a `j5.types.any.v1.Any` holding `j5_json = V.render`
+for a complete JSON value `V` of nesting depth ≤ 10000 and a valid UTF-8 type name is written as
+`{"!type": typeName, "value": <j5_json verbatim>}`, and the decoder (codec without
+`WithProtoToAny`) reading `{"!type": typeName, "value": V}` into any property with a proto path
+stores exactly `Any{type_name, j5_json}` again. Missing for the byte-level round trip with `Any`:
+the reader delivers the *parsed* value where the encoder's tree holds the raw chunk (needs
+`readDoc (… ++ V.render ++ …)` to contain `V`, i.e. `Enc V`), the `proto` / protobuf-Any forms
+(equal only up to re-marshalling) and mode `WithProtoToAny`. -/
+theorem C01_any_j5_partial (c : Cfg) (hmode : c.protoToAny = false) (props : List PropDef)
+    (p : PropDef) (st : PS) (tn : Bytes) (tv : PTree) (f : Nat)
+    (hf : p.field = .any false) (hp : p.path ≠ []) (hs : p.jsonName ∉ st.seen)
+    (hgb : groupBusy props p st.m = false) (hc : tv.complete = true) (hd : tv.depth ≤ 10000)
+    (hj : tv.render ≠ []) (hu : isValidUtf8 tn = true) :
+    ∃ tlit nlit vlit,
+      encValue c.env c.O (f + 1) (.any false) (.anyJ5 tn [] tv.render .none "" (.msg [])) =
+        .ok (.obj (.cons typeKey tlit (.str tn nlit) (.cons valueKey vlit (.raw tv.render) (.nil .closed)))) ∧
+      decProp c props p
+          (.obj (.cons typeKey tlit (.str tn nlit) (.cons valueKey vlit tv (.nil .closed)))) st =
+        .ok { m := updPath props p (some (.anyJ5 tn [] tv.render .none "" (.msg []))) st.m,
+              seen := p.jsonName :: st.seen } := by
+  obtain ⟨tlit, nlit, vlit, henc⟩ := enc_any_j5 c.env c.O f tn [] tv.render .none "" (.msg []) hj hu
+  exact ⟨tlit, nlit, vlit, henc,
+    dec_any_j5 c hmode props p st tn tlit nlit vlit tv hf hp hs hgb hc hd⟩
+
 /-! ## Non-vacuity -/
+
+/-- hypotheses of `C01_any_j5_partial`: the value `{}` -/
+example : (PTree.obj (.nil .closed)).complete = true ∧ (PTree.obj (.nil .closed)).depth ≤ 10000 ∧
+    (PTree.obj (.nil .closed)).render ≠ [] := by decide
+
+/-- … and a property / decoder state meeting the remaining hypotheses -/
+example : ({ jsonName := ascii "a", path := [7], pres := .msg, field := .any false } : PropDef).path ≠ [] ∧
+    groupBusy [] { jsonName := ascii "a", path := [7], pres := .msg, field := .any false } [] = false ∧
+    isValidUtf8 (ascii "t.v1.T") = true := by decide
 
 /-- a flat environment with every supported construct: scalars of several kinds, an enum, a
 recursive object reference, an array of objects, maps, a wrapper oneof, an **exposed oneof**
